@@ -556,7 +556,10 @@ Env ==
 CanReadNow(e, s) == HasHandle(e, s) /\ ~rwait[e][s] /\ (rpipe[e][s] # <<>> \/ (rpclosed[e][s] /\ ~eof[e][s]))
 CanAcceptNow == ~await["s"] /\ ~sclosed["s"] /\ acceptQ["s"] # <<>>
 Eager == "lazy" \notin Feat
-Next == IF Eager /\ CanAcceptNow THEN AcceptNow
+\* Without "gates" the continuation steps behind a schedule point follow their first half at once (their
+\* windows are explored by the configurations that do have "gates").
+Next == IF "gates" \notin Feat /\ ENABLED GateSteps THEN GateSteps
+        ELSE IF Eager /\ CanAcceptNow THEN AcceptNow
         ELSE IF Eager /\ \E e \in E, s \in Streams : CanReadNow(e, s)
           THEN \E e \in E, s \in Streams : ReadNow(e, s)
           ELSE Internal \/ Env
@@ -564,7 +567,10 @@ Spec == Init /\ [][Next]_vars
 
 -----------------------------------------------------------------------------
 (* properties                                                               *)
-InFlightTo(e) == \E c \in Conns : net[c][Peer(e)] # <<>> /\ connUp[c] /\ deplexOn[c][e] /\ ~endClosed[c][e]
+\* a frame is still on its way to e if e reads that connection, or will once it has added it
+InFlightTo(e) == \E c \in Conns : /\ net[c][Peer(e)] # <<>> /\ connUp[c] /\ ~endClosed[c][e]
+                                   /\ \/ deplexOn[c][e]
+                                      \/ (e = "c" /\ c \in LateConn /\ c \notin pool["c"] /\ ~broken["c"])
 Settled == /\ ~ENABLED Internal /\ ~ENABLED GateSteps
            /\ \A e \in E : ~InFlightTo(e)
 
